@@ -51,7 +51,7 @@ Theorem table_drf (progs : nat -> list ev) s0 s :
 Proof. exact (table_drf_l exemptions accesses progs s0 s discipline_okb_holds). Qed.
 Print Assumptions table_drf.
 
-(* the (held, acquired) pairs of the source, calls followed, admit a strict order *)
+(* the (held, acquired) pairs of the source, calls followed, can be ranked strictly *)
 Theorem lock_order_acyclic : exists rank : string -> nat, forall held acquired where_,
   In (held, acquired, where_) nesting -> (rank held < rank acquired)%nat.
 Proof. exact lock_order_acyclic_l. Qed.
